@@ -27,7 +27,7 @@ from vf.checks import c09_more
 
 PROP = "C09"
 CASES = {"quick": 20000, "thorough": 1200000}
-RULE = ("family in 56 method families x parameters from a small grid inside the documented range (so that each bound is "
+RULE = ("family in 57 method families x parameters from a small grid inside the documented range (so that each bound is "
         "computed once per shard and reused) x real member (seeded) x dimension 1-4 x starting point.  Non-trivial = real "
         "performance >= 50% of the bound; distinct by case JSON.")
 TRUSTED = ["the numpy re-implementations of the methods in vf/checks/c09.py (from the docstrings)", "vf/members.py", "CLARABEL"]
@@ -92,7 +92,7 @@ def _case(draw):
     elif fam == "agm":
         p = {"mu": 0, "L": L, "n": draw(st.integers(1, 4))}
     elif fam == "subgradient":
-        M = draw(st.sampled_from([1, 2, 0.5]))
+        M = draw(st.sampled_from([1, 2, 0.5, 3]))
         n = draw(st.integers(1, 4))
         p = {"M": M, "n": n, "gamma": 1 / (math.sqrt(n + 1) * M)}
     elif fam == "prox_point":
@@ -261,6 +261,24 @@ def run_family(case, rng):
         return (m.value(xn) - m.value(xs)) / d0, UC, "wc_accelerated_gradient_convex", p
     if fam == "subgradient":
         M = p["M"]
+        if kind == "extremal" and rng.randint(2):
+            # the worst case of the method: M |x - c|_inf in dimension n + 1 from a vertex direction, the oracle returning the
+            # subgradient of one maximal coordinate; every iterate keeps the value M / sqrt(n + 1)
+            N = p["n"]
+            dim = N + 1
+            c = members.int_vec(rng, dim, -2, 2).astype(float)
+            Mm = M / slack
+            x = c + rng.choice([-1.0, 1.0], size=dim) / math.sqrt(dim)
+            best = Mm * float(np.max(np.abs(x - c)))
+            for _ in range(N):
+                a = np.abs(x - c)
+                act = np.nonzero(a >= a.max() - 1e-12)[0]
+                i = act[rng.randint(len(act))]
+                gsub = np.zeros(dim)
+                gsub[i] = Mm * np.sign(x[i] - c[i])
+                x = x - p["gamma"] * gsub
+                best = min(best, Mm * float(np.max(np.abs(x - c))))
+            return best, UC, "wc_subgradient_method", p
         if kind == "extremal":
             m = members.Norm2(rng, n)
             m.M = M / slack
